@@ -45,6 +45,7 @@ class Aliased(Exception):
 
 
 _ENV = {}
+_STR = {}
 
 
 def env():
@@ -184,7 +185,8 @@ class Runner:
       return ('atom', j)
     tag = j[0]
     if tag == 's':
-      return ('atom', 's%d' % abs(j[1]))
+      # one string object per text (like None and small ints), so that `is` agrees with `==`
+      return ('atom', _STR.setdefault(abs(j[1]), 's%d' % abs(j[1])))
     if tag == 'q':
       return ('opq',)
     if tag == 'I':
